@@ -306,9 +306,15 @@ static int new_packet(int sk_fd, int timer_fd)
     memset(pdu, 0, PDU_SIZE);
 
     n = recv(sk_fd, pdu, PDU_SIZE, 0);
-    if (n < 0 || n != PDU_SIZE) {
+    if (n < 0) {
         perror("Failed to receive data");
         return -1;
+    }
+
+    /* A packet of another size is not ours: drop it and keep listening */
+    if (n != PDU_SIZE) {
+        fprintf(stderr, "Dropping packet\n");
+        return 0;
     }
 
     if (!is_valid_packet(pdu)) {
